@@ -88,8 +88,31 @@ def compare_modes(rng: Any, ctx: Ctx, s: Any, op: Any, min_tol: float = 0.0) -> 
     top = type(op).__name__
     x = gen.rand_input(rng, s)
     tol = max(dense.tol_for(op), 1e-6 if any(np.dtype(l.dtype).itemsize < 8 for l in dense.leaves(s)) else 1e-12, min_tol)
-    with jax.checking_leaks():
-        y = op.mv(x)
+    first_in_jit = bool(rng.integers(3) == 0) and 'InverseOperator' not in names
+    if first_in_jit:
+        # history: the very first application happens inside a jit closing over the operator and over a constant input
+        try:
+            yj0 = jax.jit(lambda sc: jax.tree.map(lambda l: sc * l, op.mv(x)))(1.0)
+        except Exception as exc:  # noqa: BLE001
+            LOG.evaluated('C18.jit-closure')
+            LOG.violation('C18', 'C18.jit-closure', f'{type(op).__name__}/jit-constant-input/raises-{type(exc).__name__}', str(exc)[:200], expr=dense.describe(op))
+            return
+    try:
+        with jax.checking_leaks():
+            y = op.mv(x)
+    except Exception as exc:  # noqa: BLE001
+        if first_in_jit:
+            LOG.evaluated('C18.jit-closure')
+            LOG.violation('C18', 'C18.jit-closure', f'{type(op).__name__}/eager-after-jit/raises-{type(exc).__name__}',
+                          'eager application fails after the operator was first applied inside a jit: ' + str(exc)[:150], expr=dense.describe(op))
+            return
+        raise
+    if first_in_jit:
+        LOG.count('C18.history', 'jit-first')
+        why0 = same_tree(y, yj0, max(dense.tol_for(op), 1e-6, min_tol))
+        LOG.evaluated('C18.jit-closure')
+        if why0:
+            LOG.violation('C18', 'C18.jit-closure', f'{type(op).__name__}/jit-constant-input/{why0.split(" ")[0]}', why0, expr=dense.describe(op))
     nleaves = len(jax.tree.leaves(op))
     LOG.case_key(f'{dense.skeleton(op)}:{struct_kind(s)}', nleaves >= 1 or True)
     for n in names:
